@@ -7,6 +7,7 @@ import Model.Transcript
 import Model.Batch
 import Model.Ctors
 import Model.Gens
+import Model.Nonce
 open Model Model.Wire
 
 /-- build the statement-side instance from generator basis ids -/
@@ -171,6 +172,58 @@ def cmdTableorder (m : List (String × String)) : Option String := do
 def cmdPedlabels (_ : List (String × String)) : Option String :=
   some s!"labels={",".intercalate ((List.range 6).map (fun k => bytesToHex (Gens.pedersenLabel k)))}"
 
+open Model.Nonce in
+def posOfStr (s : String) : Option Pos :=
+  match s.splitOn "." with
+  | ["alpha", k] => k.toNat?.map Pos.alpha
+  | ["dL", j, k] => do pure (Pos.dL (← j.toNat?) (← k.toNat?))
+  | ["dR", j, k] => do pure (Pos.dR (← j.toNat?) (← k.toNat?))
+  | ["r"] => some Pos.r
+  | ["s"] => some Pos.s
+  | ["d", k] => k.toNat?.map Pos.d
+  | ["eta", k] => k.toNat?.map Pos.eta
+  | _ => none
+
+open Model.Nonce in
+def cmdNoncesrc (m : List (String × String)) : Option String := do
+  let seeded := (← (← get m "seeded").toNat?) != 0
+  let t ← (← get m "t").toNat?
+  let κ ← (← get m "rounds").toNat?
+  let p ← posOfStr (← get m "pos")
+  match source seeded t κ p with
+  | .rng i d => pure s!"src=rng.{i}.{d}"
+  | .seed l _ _ => pure s!"src=seed.{l}"
+
+open Model.Nonce in
+def cmdNoncekey (m : List (String × String)) : Option String := do
+  let seed ← hexToBytes (← get m "seed")
+  let p ← posOfStr (← get m "pos")
+  match source true 0 0 p with
+  | .seed l j k => pure s!"key={bytesToHex (nonceKey seed j k)} persona={bytesToHex l.toUTF8.toList}"
+  | .rng _ _ => pure "src=rng"
+
+open Model.Nonce in
+def cmdWitnessbytes (m : List (String × String)) : Option String := do
+  let vs ← natList (← get m "v")
+  let rs ← (splitOn' (← get m "r") "/").mapM (fun row => (splitOn' row ",").mapM hexToBytes)
+  pure s!"bytes={bytesToHex (witnessBytes (vs.zip rs))}"
+
+open Model.Transcript Model.Nonce in
+def cmdRnghist (m : List (String × String)) : Option String := do
+  let nat (k : String) : Option Nat := do (← get m k).toNat?
+  let bytes (k : String) : Option (List UInt8) := do hexToBytes (← get m k)
+  let ctx ← (splitOn' (← get m "ctx") ",").mapM evOfStr
+  let gb ← (splitOn' (← get m "gb") ",").mapM hexToBytes
+  let cs ← (splitOn' (← get m "cs") ",").mapM hexToBytes
+  let ps ← natList (← get m "ps")
+  let lrs ← (splitOn' (← get m "lrs") ",").mapM (fun s =>
+    match s.splitOn ":" with
+    | [l, r] => do pure ((← hexToBytes l), (← hexToBytes r))
+    | _ => none)
+  let x : Pub := { hb := (← bytes "hb"), gb := gb, n := (← nat "n"), t := (← nat "t"), m := (← nat "m"), cs := cs, ps := ps }
+  let hs := rngHistories ctx x (← bytes "A") lrs (← bytes "A1") (← bytes "B")
+  pure s!"hists={"|".intercalate (hs.map (fun h => ",".intercalate ((h.drop ctx.length).map strOfEv)))}"
+
 def okerr (b : Bool) : String := if b then "ok" else "err"
 
 def cmdCtor (m : List (String × String)) : Option String := do
@@ -210,6 +263,10 @@ def step (line : String) : String :=
       | "genblock" => cmdGenblock m
       | "tableorder" => cmdTableorder m
       | "pedlabels" => cmdPedlabels m
+      | "noncesrc" => cmdNoncesrc m
+      | "noncekey" => cmdNoncekey m
+      | "witnessbytes" => cmdWitnessbytes m
+      | "rnghist" => cmdRnghist m
       | _ => none
     match r with
     | some s => s
